@@ -19,7 +19,7 @@ func init() {
 	fw.Register(&fw.Property{
 		ID:    "C05",
 		Level: "fault_enumeration",
-		Rule: "mode (a) prefix replay, EXHAUSTIVE per history: a history of 6-20 local writes and replications (1-2 remote writers, forks) runs on a peer whose kubo repo datastore (all block writes), cache datastores and keystore datastore are recording decorators; acknowledgements (write call returned; EventReplicated received) are stamped with the effect index. Then for EVERY prefix k of the effect log after database creation a fresh, isolated peer with the same libp2p key is built whose stores hold exactly effects[0:k], opens the database and calls Load(-1). mode (b): clean close/reopen cycles on real on-disk leveldb directories (3 peers, one of them holding only replicated entries), state before each stop compared with state after reopen+Load. mode (c) self-kill: a grandchild process with a leveldb-backed blockstore, the real cacheleveldown cache and leveldb keystore on disk sends itself SIGKILL right after the N-th persistence effect returned (N from the PRNG, 3 kills in a row on one directory); acknowledgements are fsync'ed to a side file before the next step; the directory is then recovered in-process. " +
+		Rule: "mode (a) prefix replay, EXHAUSTIVE per history: a history of 6-20 local writes, replications (1-2 remote writers, forks) and local writes held at write.after-append while a remote batch is merged and persisted runs on a peer whose kubo repo datastore (all block writes), cache datastores and keystore datastore are recording decorators; acknowledgements (write call returned; EventReplicated received) are stamped with the effect index. Then for EVERY prefix k of the effect log after database creation a fresh, isolated peer with the same libp2p key is built whose stores hold exactly effects[0:k], opens the database and calls Load(-1). mode (b): clean close/reopen cycles on real on-disk leveldb directories (3 peers, one of them holding only replicated entries), state before each stop compared with state after reopen+Load. mode (c) self-kill: a grandchild process with a leveldb-backed blockstore, the real cacheleveldown cache and leveldb keystore on disk sends itself SIGKILL right after the N-th persistence effect returned (N from the PRNG, 3 kills in a row on one directory); acknowledgements are fsync'ed to a side file before the next step; the directory is then recovered in-process. " +
 			"distinct = (history, crash index) resp. (history, restart index); non-trivial = the prefix lies after at least one acknowledgement (something must be recovered) resp. the restarted replica held >= 1 entry",
 		Assumptions: []string{"each effect is durable once its call returns (no fsync / power-loss model)", "sequential writers on the crashing peer (concurrent writers are C17)", "after every reopen Load(-1) is called before anything is written (assumption stated by the properties)"},
 		Cases:       c05Cases,
@@ -126,7 +126,23 @@ func c05Prefix(c fw.Case) fw.Verdict {
 	}()
 	var script []string
 	for i := 0; i < c.Int("steps", 10); i++ {
-		switch x := rng.Intn(10); {
+		switch x := rng.Intn(12); {
+		case x >= 10:
+			// a remote batch is merged while a local write is between append and head persistence
+			o := remotes[rng.Intn(len(remotes))]
+			if _, err := ApplyOp(bg, db.Stores[o.Idx], honestOp(typ, 300+i)); err != nil {
+				cancel()
+				return fw.Verdict{Status: fw.Inconclusive, What: "remote write: " + err.Error()}
+			}
+			e.W.Settle()
+			op, err := writeRacingMerge(e, sP, honestOp(typ, i))
+			if err != nil {
+				cancel()
+				return fw.Verdict{Status: fw.Inconclusive, What: "write: " + err.Error()}
+			}
+			log.Mark("write", op.GetEntry().GetHash().String())
+			script = append(script, "local-write-racing-merge")
+			v.Count("write_merge_races", 1)
 		case x < 5:
 			op, err := ApplyOp(bg, sP, honestOp(typ, i))
 			if err != nil {
@@ -310,7 +326,21 @@ func c05Cycles(c fw.Case) fw.Verdict {
 	restarts := 0
 	var script []string
 	for i := 0; i < c.Int("steps", 20); i++ {
-		switch x := rng.Intn(10); {
+		switch x := rng.Intn(12); {
+		case x >= 10:
+			if !peers[0].Running() || !peers[2].Running() {
+				continue
+			}
+			if _, err := ApplyOp(bg, db.Stores[peers[2].Idx], honestOp(typ, 300+i)); err != nil {
+				return fw.Verdict{Status: fw.Inconclusive, What: "write: " + err.Error()}
+			}
+			e.W.Settle()
+			if _, err := writeRacingMerge(e, db.Stores[peers[0].Idx], honestOp(typ, i)); err != nil {
+				return fw.Verdict{Status: fw.Inconclusive, What: "write: " + err.Error()}
+			}
+			script = append(script, "write-racing-merge(p0)")
+			v.Count("write_merge_races", 1)
+			e.W.Settle()
 		case x < 5:
 			w := []int{0, 2}[rng.Intn(2)]
 			if !peers[w].Running() {
@@ -380,4 +410,25 @@ func c05Cycles(c fw.Case) fw.Verdict {
 	v.Sig = fw.HashSig("cycles", c.Seed)
 	v.Sample = map[string]interface{}{"mode": "clean-restart-cycles", "type": typ, "script": script}
 	return v
+}
+
+// writeRacingMerge delivers everything in flight (so that a remote batch is
+// being merged on the store's replica) and issues a local write that is held
+// at write.after-append until the merge has persisted its heads.
+func writeRacingMerge(e *Env, s iface.Store, op Op) (operationT, error) {
+	persisted := make(chan struct{})
+	var once sync.Once
+	e.H.SetPoint("merge.after-persist", func(string, []interface{}) { once.Do(func() { close(persisted) }) })
+	e.H.SetPoint("write.after-append", func(string, []interface{}) {
+		select {
+		case <-persisted:
+		case <-time.After(25 * time.Millisecond):
+		}
+	})
+	defer e.H.SetPoint("merge.after-persist", nil)
+	defer e.H.SetPoint("write.after-append", nil)
+	go e.W.DeliverAll()
+	res, err := ApplyOp(bg, s, op)
+	e.W.Settle()
+	return res, err
 }
